@@ -13,13 +13,21 @@ Theorem C13_size_roundtrip :
 Proof. exact size_roundtrip. Qed.
 Print Assumptions C13_size_roundtrip.
 
+(* the model's arithmetic form of the 4-byte size is Go's [size |= 1<<31] written big endian *)
+Theorem C13_size_encoding_is_go :
+  forall n, 127 < n -> n < 2147483648 ->
+  encode_size n = let m := N.lor n 2147483648 in
+                  [(m / 16777216) mod 256; (m / 65536) mod 256; (m / 256) mod 256; m mod 256].
+Proof. exact encode_size_is_go. Qed.
+Print Assumptions C13_size_encoding_is_go.
+
 (* every record the client writes is a multiple of 8 bytes long and is read back exactly
    (type, request id, content) by a responder that takes the padding length from the header *)
 Theorem C13_records_wellformed :
   forall ty id c rest, ty < 256 -> id < 65536 -> len c <= 65535 ->
   len (write_record ty id c) mod 8 = 0 /\
   parse_record (write_record ty id c ++ rest) = Some (ty, id, c, rest).
-Proof. intros; split; [apply write_record_aligned | apply parse_write_record; assumption]. Qed.
+Proof. exact records_wellformed. Qed.
 Print Assumptions C13_records_wellformed.
 
 (* for EVERY body length: the stdin stream is cut into records of at most 65500 bytes, none of
@@ -30,10 +38,7 @@ Theorem C13_stream_concat :
   (forall c, In c (chunks (N.to_nat MAXW) data) -> c <> [] /\ len c <= MAXW) /\
   concat (chunks (N.to_nat MAXW) data) = data /\
   read_stream ty id (stream_wire ty id data ++ rest) = Some (data, rest).
-Proof.
-  intros ty id data rest Hty Hid. split; [intros c; apply stream_chunks_bounds|].
-  split; [apply chunks_concat, maxw_pos | apply stream_roundtrip; assumption].
-Qed.
+Proof. exact stream_concat. Qed.
 Print Assumptions C13_stream_concat.
 
 (* name-value pairs: encoding then decoding is the identity for all names and values < 2^31 *)
@@ -85,7 +90,7 @@ Print Assumptions C13_record_read_no_panic.
 
 Theorem C13_stream_reader_no_panic :
   forall conn sizes, exists x, sr_read_all (sr_init conn) sizes [] = Ok x.
-Proof. intros; apply sr_read_all_no_panic. Qed.
+Proof. exact stream_reader_no_panic. Qed.
 Print Assumptions C13_stream_reader_no_panic.
 
 (* Demultiplexing is exact: for EVERY sequence of output/stderr records (any content split, any
@@ -146,13 +151,13 @@ Proof. vm_compute. split; reflexivity. Qed.
 
 (* ---------- dispatch ---------- *)
 
-(* An existing file with the rule's extension (any letter case) under the rule's path, not
+(* A request path with the rule's extension (any letter case) under the rule's path, not
    excepted, is sent to a responder with the trimmed request path as script — for EVERY rule
-   list, file system and path — PROVIDED the path can be split for that rule. *)
+   list, EVERY file system (whether or not the file exists) and EVERY path — PROVIDED the path
+   can be split for that rule. *)
 Theorem C13_ext_always_dispatched_partial :
   forall cs stat_ok open_ok rules i p r,
   In r rules -> rule_matches cs r p = true -> allowed cs r p = true ->
-  stat_ok (trim_right p) = true ->
   r_ext r <> [] -> last_byte (r_ext r) <> Some SLASH ->
   has_suffix (to_lower (trim_right p)) (to_lower (r_ext r)) = true ->
   can_split cs r (trim_right p) = true ->
@@ -165,14 +170,11 @@ Print Assumptions C13_ext_always_dispatched_partial.
 Theorem C13_ext_always_dispatched_default :
   forall stat_ok open_ok rules i p r,
   In r rules -> rule_matches false r p = true -> allowed false r p = true ->
-  stat_ok (trim_right p) = true ->
   r_ext r <> [] -> last_byte (r_ext r) <> Some SLASH ->
   to_lower (r_split r) = to_lower (r_ext r) ->
   has_suffix (to_lower (trim_right p)) (to_lower (r_ext r)) = true ->
   exists j, serve false stat_ok open_ok rules i p = ODispatch j (trim_right p).
-Proof.
-  intros. eapply serve_ext_dispatched; eauto. apply can_split_of_suffix; assumption.
-Qed.
+Proof. exact serve_ext_dispatched_default. Qed.
 Print Assumptions C13_ext_always_dispatched_default.
 
 Example C13_ext_always_dispatched_nonvacuous :
